@@ -14,7 +14,7 @@ from . import arrays, sym
 from .arrays import ShapeError
 from .loader import AnalysisError, FunctionInfo, Module, Project
 from .sym import Expr
-from .values import (Alt, Arr, Bag, Blocks, Concat, DiagMat, DictV, FuncV, ModV, NoneV, ObjV, Sc, Seq, Space, StrV,
+from .values import (Opt, Alt, Arr, Bag, Blocks, Concat, DiagMat, DictV, FuncV, ModV, NoneV, ObjV, Sc, Seq, Space, StrV,
                      Unknown, Val, fix, fresh, generic_elem, rng, rows, shape_of, subspace)
 
 
@@ -318,8 +318,29 @@ class Interp:
             return Arr(a.axes, sym.ITE(c, a.elem, eb), a.kind)
         if isinstance(a, NoneV) and isinstance(b, NoneV):
             return a
+        if isinstance(a, NoneV) and not isinstance(b, (Alt, Unknown)):
+            if isinstance(b, Opt):
+                return Opt(sym.Or(c, b.none_if), b.val)
+            return Opt(c, b)
+        if isinstance(b, NoneV) and not isinstance(a, (Alt, Unknown)):
+            if isinstance(a, Opt):
+                return Opt(sym.Or(sym.Not(c), a.none_if), a.val)
+            return Opt(sym.Not(c), a)
+        if isinstance(a, Opt) and isinstance(b, Opt):
+            return Opt(sym.Or(sym.And(c, a.none_if), sym.And(sym.Not(c), b.none_if)), self.join_cond(c, a.val, b.val))
+        if isinstance(a, Opt) and not isinstance(b, (Alt, Unknown)):
+            return Opt(sym.And(c, a.none_if), self.join_cond(c, a.val, b))
+        if isinstance(b, Opt) and not isinstance(a, (Alt, Unknown)):
+            return Opt(sym.And(sym.Not(c), b.none_if), self.join_cond(c, a, b.val))
         if isinstance(a, StrV) and isinstance(b, StrV) and a.s == b.s:
             return a
+        if isinstance(a, StrV) and isinstance(b, StrV):
+            # two different literal strings chosen by a condition (a style, a label)
+            return Sc(sym.ITE(c, sym.Str(a.s), sym.Str(b.s)))
+        if isinstance(a, StrV) and isinstance(b, Sc) and b.e[0] == "ite" and any(x[0] == "str" for x in sym.walk(b.e)):
+            return Sc(sym.ITE(c, sym.Str(a.s), b.e))
+        if isinstance(b, StrV) and isinstance(a, Sc) and a.e[0] == "ite" and any(x[0] == "str" for x in sym.walk(a.e)):
+            return Sc(sym.ITE(c, a.e, sym.Str(b.s)))
         if isinstance(a, _SeqAcc) and isinstance(b, _SeqAcc) and len(a.items) == len(b.items):
             n = _SeqAcc([self.join_cond(c, x, y) for x, y in zip(a.items, b.items)])
             n.appended, n.reaches = list(a.appended), list(a.reaches)
@@ -501,6 +522,14 @@ class Interp:
         rc = rc.e if isinstance(rc, Sc) else sym.TRUE
         e1["$reach"] = Sc(sym.And(rc, c))
         e2["$reach"] = Sc(sym.And(rc, sym.Not(c)))
+        # `if x is None:` / `if x is not None:` on an optional value narrows it in both arms
+        t = st.test
+        if isinstance(t, ast.Compare) and len(t.ops) == 1 and isinstance(t.ops[0], (ast.Is, ast.IsNot, ast.Eq, ast.NotEq)) \
+                and isinstance(t.left, ast.Name) and isinstance(t.comparators[0], ast.Constant) \
+                and t.comparators[0].value is None and isinstance(env.get(t.left.id), Opt):
+            none_arm, val_arm = (e1, e2) if isinstance(t.ops[0], (ast.Is, ast.Eq)) else (e2, e1)
+            none_arm[t.left.id] = NoneV()
+            val_arm[t.left.id] = env[t.left.id].val
         n = len(self.path)
         self.path.append(c)
         r1 = self.exec_block(st.body, e1)
@@ -1191,7 +1220,9 @@ class Interp:
                 return StrV(v)
             return self.unknown("constant", n)
         if isinstance(n, ast.Name):
-            return self.lookup(n.id, env, n)
+            v = self.lookup(n.id, env, n)
+            # an optional value used as a value: the None case would raise, so the payload is meant
+            return v.val if isinstance(v, Opt) else v
         if isinstance(n, ast.Attribute):
             fr = self.frames[-1] if self.frames else None
             if fr is not None:
@@ -1219,10 +1250,10 @@ class Interp:
             if isinstance(n.op, ast.Invert):
                 return arrays.unop(sym.Not, v)
         if isinstance(n, ast.Compare):
-            left = self.eval(n.left, env)
+            left = self._eval_raw(n.left, env)
             out = None
             for op, cn in zip(n.ops, n.comparators):
-                right = self.eval(cn, env)
+                right = self._eval_raw(cn, env)
                 c = self.compare(op, left, right, n)
                 out = c if out is None else arrays.binop(lambda a, b: sym.And(a, b), out, c)
                 left = right
@@ -1398,7 +1429,21 @@ class Interp:
             self.event("div", node, num=a, den=b)
         return arrays.binop(f, a, b)
 
+    def _eval_raw(self, n, env) -> Val:
+        """like eval, but a plain name keeps its optional wrapper (for `x is None` tests)"""
+        if isinstance(n, ast.Name):
+            return self.lookup(n.id, env, n)
+        return self.eval(n, env)
+
     def compare(self, op, a: Val, b: Val, node) -> Val:
+        if isinstance(op, (ast.Is, ast.IsNot, ast.Eq, ast.NotEq)) and (
+                (isinstance(a, Opt) and isinstance(b, NoneV)) or (isinstance(b, Opt) and isinstance(a, NoneV))):
+            o = a if isinstance(a, Opt) else b
+            return Sc(o.none_if if isinstance(op, (ast.Is, ast.Eq)) else sym.Not(o.none_if))
+        if isinstance(a, Opt):
+            a = a.val
+        if isinstance(b, Opt):
+            b = b.val
         if isinstance(op, (ast.Is, ast.IsNot)):
             same = (isinstance(a, NoneV) and isinstance(b, NoneV))
             known = isinstance(a, (NoneV, Sc, Arr, Seq, StrV, DictV, FuncV, ObjV, Blocks, Bag)) and \
